@@ -8,9 +8,11 @@ N     == [t |-> "none"]
 I(n)  == [t |-> "int", i |-> n]
 S(s)  == [t |-> "str", s |-> s]
 L1    == [t |-> "list", n |-> 1]                  \* the mutable fallback [1]
+IL(e) == [t |-> "ilist", e |-> e]                 \* a list of ints: the value of a COLLECTION-typed alias / target (cfg.coll)
+IsColl(cfg) == "coll" \in DOMAIN cfg /\ cfg.coll
 T(cfg, v) == IF ~cfg.tr THEN v ELSE IF v.t = "int" THEN I(2 * v.i) ELSE IF v.t = "str" THEN S(v.s \o v.s) ELSE v
 Fallback(cfg) == IF cfg.fb = "imm" THEN I(7) ELSE L1
-Typed(cfg, v) == cfg.host # "spec" \/ v.t = "int"        \* on a spec class the alias is a managed attribute of type int
+Typed(cfg, v) == cfg.host # "spec" \/ v.t = (IF IsColl(cfg) THEN "ilist" ELSE "int")   \* on a spec class the alias is a managed attribute of type int (List[int] when cfg.coll)
 Res(st, res, val) == [st |-> st, res |-> res, val |-> val]
 MissingErr == {"AttributeError", "KeyError"}
 
@@ -34,5 +36,12 @@ Step(Dev, cfg, st, a) ==
     [] a.op \in {"write_target", "cow_target"} -> Res([st EXCEPT !.target = a.v], {"ok"}, N)
     [] a.op = "delete_target" -> IF st.target # N THEN Res([st EXCEPT !.target = N], {"ok"}, N) ELSE Res(st, MissingErr, N)
     [] a.op = "deepcopy"      -> Res(st, {"ok"}, N)
+    \* element helpers (copy-on-write) on a collection-typed alias / target: the new value is the value READ through the alias plus the item;
+    \* stored like any assignment to the alias (local override, or the target for a passthrough alias); the target is otherwise untouched
+    [] a.op = "cow_item_alias" -> LET r == ReadAlias(Dev, cfg, st) IN
+         IF r.res # {"ok"} THEN Res(st, {"unspecified"}, N)
+         ELSE LET nv == IL(Append(r.val.e, a.v.i)) IN
+              IF cfg.pt THEN Res([st EXCEPT !.target = nv], {"ok"}, N) ELSE Res([st EXCEPT !.ov = nv], {"ok"}, N)
+    [] a.op = "cow_item_target" -> IF st.target = N THEN Res(st, {"unspecified"}, N) ELSE Res([st EXCEPT !.target = IL(Append(st.target.e, a.v.i))], {"ok"}, N)
 IsAliasAccess(a) == a.op \in {"read_alias", "write_alias", "delete_alias"}
 =============================================================================
